@@ -199,7 +199,7 @@ func (g *genState) genC08() {
 	}
 	tg := &tree.Gen{R: g.r, MaxDepth: 4, MaxElems: 5}
 	for _, a := range g.leaves() {
-		for _, v := range []string{"w", "wr", "wd", "wpool", "wp:aabbccfdfeff"} {
+		for _, v := range []string{"w", "wr", "wd", "wpool", "wn", "wp:aabbccfdfeff"} {
 			g.treeLine("leaf-"+strings.SplitN(v, ":", 2)[0], v, a)
 		}
 	}
@@ -211,7 +211,7 @@ func (g *genState) genC08() {
 			tg.BigProb = 3
 		}
 		t := tg.Tree(1 + g.r.Intn(4))
-		for _, v := range []string{"w", "wr", "wd", "wpool", "wp:" + hx.Hex(g.r.Bytes(1+g.r.Intn(20)))} {
+		for _, v := range []string{"w", "wr", "wd", "wpool", "wn", "wp:" + hx.Hex(g.r.Bytes(1+g.r.Intn(20)))} {
 			g.treeLine("tree-"+strings.SplitN(v, ":", 2)[0], v, t)
 		}
 	}
